@@ -123,6 +123,7 @@ theorem step_inv (c : Cfg) (s s' : St) (op : Op) (h : LInv c s) (hs : step? c s 
   have mu1 := h.mu1
   cases op with
   | hbRead => simp [step?] at hs; subst hs; exact ⟨h.ctr, h.hist, h.capb, h.sw, h.mu1⟩
+  | mark r => simp only [step?] at hs; split at hs <;> simp at hs; subst hs; exact h
   | hbFire =>
     obtain ⟨ctr, hist, capb, sw, mu1⟩ := h
     simp [step?] at hs; subst hs
